@@ -15,6 +15,8 @@ import Mahotas.Proofs.C19HaralickFeat
 import Mahotas.Proofs.C19CoocData
 import Mahotas.Proofs.C19Entropy
 import Mahotas.Proofs.C19IntegralRing
+import Mahotas.Proofs.C19Tas
+import Mahotas.Proofs.C19TasNorm
 import Mathlib.Data.ZMod.Basic
 namespace Mahotas.C19
 open Mahotas Mahotas.Generated
@@ -496,3 +498,75 @@ example : entropyG 0 log2R [1 / 2, 1 / 2] = 1 := by
 /-- `uint8` arithmetic: 200 + 100 wraps to 44 -/
 example : integral 2 ([[200, 100], [100, 200]] : List (List (ZMod 256))) = [[200, 44], [44, 88]] := by decide
 example : moments (fun n => (n : Rat)) [[1, 2], [3, 4]] 2 0 (1 / 2) 0 = 5 / 2 := by decide +kernel
+
+/-! ## Round 4 (tas / haralick options / lbp sampling) -/
+
+/-- **TAS, model = counting definition.** For every image shape of rank 2 (rank 3) and every binarisation `b`, the
+integer part of `tas.py: _ctas` — `np.histogram(convolve(b.astype(uint8), M), bins)[0][:saved]` with the kernel of
+ones whose centre is 10 (28), border mode `reflect`, `bins = arange(11)` (`arange(28)`, last bin closed),
+`saved = 9` (`27`) — is, bin by bin, the number of pixels that are **not** selected by `b` and have exactly `k` selected
+pixels among their 8 (26) neighbours (`k = 0 … 8`, `0 … 26`; a neighbour outside the image is the reflected pixel).
+At every pixel the convolution value is `centre·[b p] + #selected neighbours`. -/
+theorem C19_tas_counts (s : List Nat) (b : List Int → Bool) :
+    (s.length = 2 → C19Tas.ctasCounts s b = (List.range 9).map (C19Tas.tasCount s b)) ∧
+    (s.length = 3 → C19Tas.ctasCounts s b = (List.range 27).map (C19Tas.tasCount s b)) ∧
+    (∀ w0 p, p ∈ C19Tas.boxPos s →
+      C19Tas.convAt s w0 b p = w0 * C19Tas.bit (b p) + C19Tas.nbCount s b p) :=
+  ⟨fun h => C19Tas.ctasCounts_2d s h b, fun h => C19Tas.ctasCounts_3d s h b,
+   fun w0 p hp => C19Tas.convAt_eq s w0 b p hp⟩
+
+/-- **TAS, the kept bins partition the unselected pixels**: the 9 (27) counts of `_ctas` add up to the number of pixels
+not selected by `b` (`values.sum()`, the normalisation constant of `_ctas`). -/
+theorem C19_tas_total (s : List Nat) (b : List Int → Bool) (h : s.length = 2 ∨ s.length = 3) :
+    (C19Tas.ctasCounts s b).sum = C19Tas.offCount s b := by
+  rcases h with h | h
+  · rw [C19Tas.ctasCounts_2d s h b]
+    exact C19Tas.tasCount_sum s b 8 (by rw [h]; exact C19Tas.nb_len2)
+  · rw [C19Tas.ctasCounts_3d s h b]
+    exact C19Tas.tasCount_sum s b 26 (by rw [h]; exact C19Tas.nb_len3)
+
+/-- **TAS, normalisation** (`values / float(s)` when `s > 0`): over any ordered field every entry of `_ctas` lies in
+`[0, 1]`; the entries sum to 1 when some pixel is not selected; when every pixel is selected all entries are 0. The
+model's `ctas` is this definition at the scalar type (the driver runs it at `Float`). -/
+theorem C19_tas_normalised {α : Type} [Field α] [LinearOrder α] [IsStrictOrderedRing α]
+    (s : List Nat) (b : List Int → Bool) (h : s.length = 2 ∨ s.length = 3) :
+    (∀ x ∈ C19Tas.ctas (Nat.cast : Nat → α) s b, 0 ≤ x ∧ x ≤ 1) ∧
+    (0 < C19Tas.offCount s b → (C19Tas.ctas (Nat.cast : Nat → α) s b).sum = 1) ∧
+    (C19Tas.offCount s b = 0 → ∀ x ∈ C19Tas.ctas (Nat.cast : Nat → α) s b, x = 0) := by
+  have ht := C19_tas_total s b h
+  refine ⟨fun x hx => C19Tas.normalise_mem _ x hx, fun hpos => ?_, fun hz x hx => ?_⟩
+  · exact C19Tas.normalise_sum _ (by rw [ht]; exact hpos)
+  · exact C19Tas.normalise_zero _ (by rw [ht]; exact hz) x hx
+
+/-- **TAS, the complement half is Hamilton's statistic.** `_tas` also evaluates `_ctas` on `~b`. Bin `k` of that half
+is the number of pixels **selected** by `b` that have exactly `N − k` selected neighbours (`N = 8`, `26`): the
+threshold adjacency statistic of Hamilton et al. with the bin order reversed. (The half computed on `b` itself counts
+the unselected pixels by selected neighbours — theorem `C19_tas_counts`.) -/
+theorem C19_tas_complement (s : List Nat) (b : List Int → Bool) :
+    (s.length = 2 → C19Tas.ctasCounts s (fun p => !b p)
+        = (List.range 9).map fun k => C19Tas.hamiltonCount s b (8 - k)) ∧
+    (s.length = 3 → C19Tas.ctasCounts s (fun p => !b p)
+        = (List.range 27).map fun k => C19Tas.hamiltonCount s b (26 - k)) := by
+  constructor
+  · intro h
+    rw [C19Tas.ctasCounts_2d s h]
+    apply List.map_congr_left
+    intro k hk
+    have hk9 : k < 9 := by simpa using hk
+    exact C19Tas.tasCount_not s b 8 k (by rw [h]; exact C19Tas.nb_len2) (by omega)
+  · intro h
+    rw [C19Tas.ctasCounts_3d s h]
+    apply List.map_congr_left
+    intro k hk
+    have hk27 : k < 27 := by simpa using hk
+    exact C19Tas.tasCount_not s b 26 k (by rw [h]; exact C19Tas.nb_len3) (by omega)
+
+/-- a 2×3 image with one selected pixel in a corner: the corner sees itself three times through the reflecting border -/
+example :
+    let b : List Int → Bool := fun p => p == [0, 0]
+    C19Tas.ctasCounts [2, 3] b = [2, 1, 2, 0, 0, 0, 0, 0, 0] ∧
+    C19Tas.ctasCounts [2, 3] (fun p => !b p) = [0, 0, 0, 0, 0, 1, 0, 0, 0] ∧
+    C19Tas.hamiltonCount [2, 3] b 3 = 1 ∧ C19Tas.offCount [2, 3] b = 5 ∧
+    C19Tas.ctas (Nat.cast : Nat → Rat) [2, 3] b = [2 / 5, 1 / 5, 2 / 5, 0, 0, 0, 0, 0, 0] := by
+  decide +kernel
+example : (C19Tas.ctasCounts [2, 2, 2] (fun p => p == [0, 0, 0])).sum = 7 := by decide +kernel
